@@ -925,7 +925,8 @@ class EnumConverter(Converter[enum.Enum]):
         val = self.inner_conv.try_convert(val)
         try:
             return self.val_map[val]
-        except KeyError:
+        except (KeyError, TypeError):
+            # TypeError: an unhashable converted value (e.g. a tuple holding a list) is not a member either
             raise ParseInterrupt()
 
     def collect_errors(self, val: t.Any) -> t.Optional[ErrorNode]:
@@ -937,7 +938,7 @@ class EnumConverter(Converter[enum.Enum]):
         try:
             self.val_map[conv_val]
             return None
-        except KeyError:
+        except (KeyError, TypeError):
             return WrongTypeError(self.expected(), val)
 
 
